@@ -494,6 +494,9 @@ def q_md_nested2(ds): return ds.Select("lambda e: e.jets().Select(lambda j: e.je
 def q_wrapped_method(ds): return ds.Select("lambda e: e.jets().Select(lambda j: j.mass())")
 def q_wrapped_method2(ds): return ds.Select("lambda e: e.jets().Where(lambda j: j.phi() > 1).Count()")
 def q_own_kw(ds): return ds.Select("lambda e: e.jets().Where(test=lambda j: j.pt() > 30).Count()")
+# a call site in the DEFAULT value of a parameter of a nested / stage lambda (evaluated where the lambda is written)
+def q_default_nested(ds): return ds.Select("lambda e: e.jets().Where(lambda j, *, cut=scale_impl_c09(e.met()): j.pt() > cut).Count()")
+def q_default_stage(ds): return ds.Select("lambda e, *, k=scale_impl_c09(1.5, by=4.0): e.met() * k")
 '''
 
 
@@ -514,6 +517,8 @@ def directed(ctx):
         "q_wrapped_method": ([("method",)], ["method"], "j.mass(1.0)", None),
         "q_wrapped_method2": ([("method",)], ["method"], "j.phi() > 1", None),
         "q_md_nested2": ([("method",), ("method",)], ["method", "method"], "k.eta() > j.eta()", None),
+        "q_default_nested": ([("method",), ("func",)], ["method", "func"], "cut=scale_impl_c09(e.met(), 2.0)", None),
+        "q_default_stage": ([("func",)], ["func"], "k=scale_impl_c09(1.5, 4.0)", None),
     }
     for name, (calls, mds, must_have, must_not_have) in want.items():
         ctx.case(f"directed:{name}", True)
